@@ -424,12 +424,13 @@ func Chunk[T comparable](slice []T, size int) [][]T {
 // Drop creates a new slice with n elements dropped from the beginning.
 // If n < 0 the elements will be dropped from the back of the collection.
 func Drop[T any](slice []T, n int) []T {
-	if Abs(n) < len(slice) {
-		if n > 0 {
+	// The bounds are tested without negating n: -n overflows for the smallest int.
+	if n > 0 {
+		if n < len(slice) {
 			return slice[n:]
-		} else {
-			return slice[:len(slice)-Abs(n)]
 		}
+	} else if n > -len(slice) {
+		return slice[:len(slice)+n]
 	}
 	return []T{}
 }
